@@ -42,7 +42,9 @@ func cliDir(c *Ctx) string {
 	return d
 }
 
-func carRun(c *Ctx, dir string, args ...string) cliRes {
+func carRun(c *Ctx, dir string, args ...string) cliRes { return carRunIn(c, dir, nil, args...) }
+
+func carRunIn(c *Ctx, dir string, stdin []byte, args ...string) cliRes {
 	if c.CarBin == "" {
 		panic("the car binary was not built (needs_cli)")
 	}
@@ -50,7 +52,7 @@ func carRun(c *Ctx, dir string, args ...string) cliRes {
 	defer cancel()
 	cmd := exec.CommandContext(ctx, c.CarBin, args...)
 	cmd.Dir = dir
-	cmd.Stdin = bytes.NewReader(nil)
+	cmd.Stdin = bytes.NewReader(stdin)
 	var so, se bytes.Buffer
 	cmd.Stdout = &so
 	cmd.Stderr = &se
@@ -126,6 +128,9 @@ func codecArgs(k uint64) []string {
 	}
 	return []string{"--codec", n}
 }
+
+func isVB(v Val) bool { _, ok := v.(VB); return ok }
+func isVL(v Val) bool { _, ok := v.(VL); return ok }
 
 func vnum(v Val) uint64 {
 	if n, ok := v.(VN); ok {
@@ -223,13 +228,29 @@ func runCliImpl(c *Ctx, cmd string, flags VL, files VL) Val {
 	c.Count("cmd:" + cmd)
 	switch cmd {
 	case "filter":
-		var sb strings.Builder
-		for _, s := range flags[0].(VL) {
-			sb.WriteString(cidString(s.(VB)))
-			sb.WriteByte('\n')
+		// the CID list: (text table mode intended) = the list file byte for byte, or plain (cid ...)
+		var listText []byte
+		viaStdin := false
+		if cl := flags[0].(VL); len(cl) == 4 && isVB(cl[0]) && isVL(cl[1]) {
+			listText = []byte(cl[0].(VB))
+			viaStdin = vnum(cl[2]) == 1
+		} else {
+			var sb strings.Builder
+			for _, s := range cl {
+				sb.WriteString(cidString(s.(VB)))
+				sb.WriteByte('\n')
+			}
+			listText = []byte(sb.String())
 		}
-		os.WriteFile(filepath.Join(dir, "cids.txt"), []byte(sb.String()), 0o644)
-		args := []string{"filter", "--cid-file", "cids.txt"}
+		args := []string{"filter"}
+		var stdin []byte
+		if viaStdin {
+			stdin = listText
+			c.Count("cidlist:stdin")
+		} else {
+			os.WriteFile(filepath.Join(dir, "cids.txt"), listText, 0o644)
+			args = append(args, "--cid-file", "cids.txt")
+		}
 		if vnum(flags[1]) != 0 {
 			args = append(args, "--inverse")
 		}
@@ -238,7 +259,7 @@ func runCliImpl(c *Ctx, cmd string, flags VL, files VL) Val {
 			args = append(args, "--append")
 		}
 		args = append(args, names[0], "out.car")
-		r := carRun(c, dir, args...)
+		r := carRunIn(c, dir, stdin, args...)
 		return VL{VT(r.status), fileVal(filepath.Join(dir, "out.car")), postVal(c, dir, "out.car", r.status == "ok")}
 	case "index":
 		args := append([]string{"index"}, codecArgs(vnum(flags[0]))...)
